@@ -1,4 +1,5 @@
 import PmtilesModel.Proofs.Extract
+import PmtilesModel.Proofs.ExtractContent
 /-!
 # C07 — Extract is an exact restriction, identical for every thread/overfetch setting
 
@@ -101,5 +102,68 @@ theorem reencode_counts (es : List Entry) :
         unfold step; cases lookup s.seen e.off <;> simp
       omega
   rw [this]; simp [reencodeInit]
+
+/-- **content preservation of the re-encoding**: output entry `i` has the ID, run length and length
+    of selected entry `i`, and the bytes at its new offset in the output tile data are the bytes at the
+    old offset in the source — for first occurrences and for repeated (deduplicated) offsets alike -/
+theorem reencode_keeps_content (src : Bytes) (es : List Entry) (hin : ∀ e ∈ es, e.off + e.len ≤ src.length)
+    (hol : OffLen es) :
+    All₂ (Keeps src (render src (reencode es).ranges)) (reencode es).out es.reverse :=
+  reencode_keeps src es hin hol
+
+/-- the tile entries of a set of directories -/
+def tileEntries (dirs : List (List Entry)) : List Entry := dirs.flatten.filter (fun e => e.rl != 0)
+
+/-- **exact restriction, end to end through the pure pipeline.**  `dirs` are the directories Extract
+    visits (root and relevant leaves), `rel` any ordering (Extract sorts by tile ID) of the entries
+    `RelevantEntries` keeps from them.  In the output archive — the re-encoded entries and the tile data
+    the ranges render — tile `t` holds bytes `b` **iff** `t` is in the wanted set and holds `b` in the
+    source: every wanted stored tile is present with the source's bytes, and no other tile is addressed. -/
+theorem extract_exact (src : Bytes) (S : Nat → Bool) (meets : Nat → Nat → Bool) (lastTile : Nat)
+    (dirs : List (List Entry)) (rel : List Entry)
+    (hrel : rel.Perm (dirs.flatMap (fun d => (relevantAux S meets lastTile d).1)))
+    (hin : ∀ e ∈ tileEntries dirs, e.off + e.len ≤ src.length)
+    (hol : OffLen (tileEntries dirs))
+    (t : Nat) (b : Bytes) :
+    (∃ o ∈ (reencode rel).out, covers o t ∧ slice (render src (reencode rel).ranges) o.off o.len = b) ↔
+      (S t = true ∧ ∃ e ∈ tileEntries dirs, covers e t ∧ slice src e.off e.len = b) := by
+  have hmem : ∀ e, e ∈ tileEntries dirs ↔ (∃ d ∈ dirs, e ∈ d) ∧ e.rl ≠ 0 := by
+    intro e
+    unfold tileEntries
+    rw [List.mem_filter, List.mem_flatten]
+    constructor
+    · rintro ⟨⟨d, hd, he⟩, h0⟩; exact ⟨⟨d, hd, he⟩, by simpa using h0⟩
+    · rintro ⟨⟨d, hd, he⟩, h0⟩; exact ⟨⟨d, hd, he⟩, by simpa using h0⟩
+  apply reencode_exact src S (tileEntries dirs) rel hin hol
+  · intro t o l
+    constructor
+    · rintro ⟨p, hp, h⟩
+      obtain ⟨d, hd, hpd⟩ := List.mem_flatMap.mp (hrel.mem_iff.mp hp)
+      obtain ⟨hs, e, he, h0, hc⟩ := (relevant_tiles_spec S meets lastTile d t o l).mp ⟨p, hpd, h⟩
+      exact ⟨hs, e, (hmem e).mpr ⟨⟨d, hd, he⟩, h0⟩, hc⟩
+    · rintro ⟨hs, e, he, hc⟩
+      obtain ⟨⟨d, hd, hed⟩, h0⟩ := (hmem e).mp he
+      obtain ⟨p, hp, h⟩ := (relevant_tiles_spec S meets lastTile d t o l).mpr ⟨hs, e, hed, h0, hc⟩
+      exact ⟨p, hrel.mem_iff.mpr (List.mem_flatMap.mpr ⟨d, hd, hp⟩), h⟩
+  · intro p hp
+    obtain ⟨d, hd, hpd⟩ := List.mem_flatMap.mp (hrel.mem_iff.mp hp)
+    obtain ⟨e, he, h0, h1, h2⟩ := relevant_target S meets lastTile d p hpd
+    exact ⟨e, (hmem e).mpr ⟨⟨d, hd, he⟩, h0⟩, h1, h2⟩
+
+/-- the hypotheses are satisfiable by a non-trivial archive: a root with a run, a shared content and
+    a leaf pointer, a wanted set that cuts the run -/
+example :
+    let src : Bytes := [1, 2, 3, 4, 5, 6]
+    let dirs : List (List Entry) := [[⟨0, 0, 2, 3⟩, ⟨3, 2, 3, 1⟩, ⟨4, 0, 2, 1⟩, ⟨5, 100, 9, 0⟩], [⟨5, 5, 1, 1⟩]]
+    (∀ e ∈ tileEntries dirs, e.off + e.len ≤ src.length) ∧ OffLen (tileEntries dirs) := by
+  refine ⟨by decide, by unfold OffLen; decide⟩
+
+/-- `OffLen` is needed, and the code behaves the same way: `seen` is keyed by the source offset alone,
+    so two entries that share an offset but not a length make the second one point at too few bytes -/
+theorem offlen_needed :
+    let src : Bytes := [7, 8]
+    let es : List Entry := [⟨0, 0, 1, 1⟩, ⟨1, 0, 2, 1⟩]
+    ∃ o ∈ (reencode es).out, o.id = 1 ∧ slice (render src (reencode es).ranges) o.off o.len ≠ slice src 0 2 := by
+  refine ⟨⟨1, 0, 2, 1⟩, by decide, rfl, by decide⟩
 
 end Pm.C07
